@@ -19,7 +19,8 @@ from .apdu import encode_max_segments_accepted, decode_max_segments_accepted, \
     SimpleAckPDU, UnconfirmedRequestPDU, apdu_types, \
     unconfirmed_request_types, confirmed_request_types, complex_ack_types, \
     error_types
-from .errors import RejectException, AbortException, UnrecognizedService
+from .errors import RejectException, AbortException, UnrecognizedService, \
+    InvalidTag
 
 # some debugging
 _debug = 0
@@ -1439,6 +1440,10 @@ class ApplicationServiceAccessPoint(ApplicationServiceElement, ServiceAccessPoin
                 except AbortException as err:
                     ApplicationServiceAccessPoint._debug("    - decoding abort: %r", err)
                     error_found = err
+                except Exception as err:
+                    # whatever else the decoders raise on malformed parameters
+                    ApplicationServiceAccessPoint._debug("    - decoding error: %r", err)
+                    error_found = InvalidTag("decoding error")
 
             # no error so far, keep going
             if not error_found:
@@ -1489,6 +1494,9 @@ class ApplicationServiceAccessPoint(ApplicationServiceElement, ServiceAccessPoin
                 return
             except AbortException as err:
                 ApplicationServiceAccessPoint._debug("    - decoding abort: %r", err)
+                return
+            except Exception as err:
+                ApplicationServiceAccessPoint._debug("    - decoding error: %r", err)
                 return
 
             try:
